@@ -37,10 +37,12 @@ Rep(t, k) == [q \in 1..k |-> t]
 (* prefixes that fill the register files (and the positional slots) so that the enumerated suffix lands on the stack *)
 Prefixes(env) ==
   IF Reduced \/ Long THEN { <<>> }
-  ELSE IF env \in {"x64-sysv", "x64-win"} THEN { <<>>, Rep("i64", 4), Rep("i64", 6), Rep("f64", 8), Rep("i64", 6) \o Rep("f64", 8), Rep("f32", 9) }
-  ELSE IF env \in {"x86-sysv", "x86-win"} THEN { <<>>, Rep("i32", 3), <<"f32">> }
-  ELSE { <<>>, Rep("i64", 8), Rep("f64", 8), Rep("i64", 8) \o Rep("f64", 8), Rep("i32", 9) }
-RetTypes(env) == TypesOf(env) \cup {"u8", "i16", "u32", "f64x2", "f32x8"}
+  ELSE IF env \in {"x64-sysv", "x64-win"}
+       THEN (IF Slim THEN { <<>>, Rep("i64", 4), Rep("i64", 6) \o Rep("f64", 8), Rep("f32", 9) }
+             ELSE { <<>>, Rep("i64", 4), Rep("i64", 6), Rep("f64", 8), Rep("i64", 6) \o Rep("f64", 8), Rep("f32", 9) })
+  ELSE IF env \in {"x86-sysv", "x86-win"} THEN (IF Slim THEN { <<>>, Rep("i32", 3) } ELSE { <<>>, Rep("i32", 3), <<"f32">> })
+  ELSE (IF Slim THEN { <<>>, Rep("i64", 8) \o Rep("f64", 8), Rep("i32", 9) }
+        ELSE { <<>>, Rep("i64", 8), Rep("f64", 8), Rep("i64", 8) \o Rep("f64", 8), Rep("i32", 9) })
 
 Themes == [ ints |-> {"i32", "i64", "i8"}, fps |-> {"f32", "f64"}, vecs |-> {"f32x4", "f64", "i64"},
             odd |-> {"f32", "i32", "f32x4", "i64", "i16"}, wide |-> {"f64x4", "f32", "i32", "f32x16"},
